@@ -259,6 +259,100 @@ def ledger_route(ctx, i):
         check(ctx, plain_t, plain_r, kinds, dc, True, case)
 
 
+RELOAD_STATEMENTS = [
+    'SELECT account, sum(position) AS total GROUP BY account ORDER BY account',
+    'SELECT date, account, position, weight WHERE number != 0 ORDER BY date, account',
+    'SELECT account, units(sum(position)) AS u, cost(sum(position)) AS c GROUP BY account ORDER BY account',
+]
+
+
+def shell_reload_route(ctx, i):
+    """Shell sessions with numberify on: statements, then the ledger file is rewritten so that the display precision of
+    some currencies changes, `.reload`, the same statements again. After the reload the session prints what a fresh
+    session on the rewritten file prints, and every numberified cell is the quantity it stands for, quantized with the
+    rewritten ledger's display context."""
+    import contextlib
+    import io
+    import os
+    import tempfile
+    from beanquery import shell
+    from beancount import loader
+    rng = ctx.rng('reload', i)
+    led = ledgers.gen_ledger(rng, ntxn=rng.randint(4, 10), with_queries=False)
+    cur = rng.choice(['USD', 'EUR'])
+    places = rng.choice([3, 4, 0])
+    extra = []
+    for k in range(40):
+        q = f'{rng.randint(1, 9)}.{rng.randint(0, 10 ** places - 1):0{places}d}' if places else str(rng.randint(1, 99))
+        extra.append(f'2021-0{1 + k % 9}-1{k % 9} * "precision {k}"\n  Assets:Cash  {q} {cur}\n  Expenses:Food  -{q} {cur}\n')
+    text2 = led.text + '\n' + '\n'.join(extra)
+    case = {'ledger': led.text, 'appended': f'40 transactions in {cur} with {places} fractional digits'}
+    fd, path = tempfile.mkstemp(suffix='.beancount', prefix='bqv-c17-')
+    os.close(fd)
+
+    def session(texts):
+        out = io.StringIO()
+        with contextlib.redirect_stdout(io.StringIO()), contextlib.redirect_stderr(io.StringIO()):
+            sh = shell.BQLShell(path, out, interactive=False, runinit=False, format='csv', numberify=True)
+        return sh, out
+
+    def run_lines(sh, out, lines):
+        res = []
+        for line in lines:
+            out.seek(0)
+            out.truncate()
+            with contextlib.redirect_stdout(io.StringIO()), contextlib.redirect_stderr(io.StringIO()) as err:
+                sh.onecmd(line)
+            res.append((out.getvalue(), err.getvalue()))
+        return res
+    try:
+        with open(path, 'w') as f:
+            f.write(led.text)
+        stmts = rng.sample(RELOAD_STATEMENTS, rng.randint(1, len(RELOAD_STATEMENTS)))
+        try:
+            sh, out = session(None)
+            first = run_lines(sh, out, stmts)
+            with open(path, 'w') as f:
+                f.write(text2)
+            run_lines(sh, out, ['.reload'])
+            after = run_lines(sh, out, stmts)
+            sh2, out2 = session(None)
+            fresh = run_lines(sh2, out2, stmts)
+        except Exception as exc:  # noqa: BLE001
+            ctx.violation(f'c17.shell_session_raised.{type(exc).__name__}', f'shell session with .reload: {type(exc).__name__}: {exc}', case)
+            return
+        ctx.count('obs.reload_sessions')
+        changed = any(a != b for a, b in zip(first, after))
+        ctx.case(('reload', led.text, cur, places, tuple(stmts)), changed)
+        if changed:
+            ctx.count('obs.reload_sessions_output_changed')
+        for st, (a, aerr), (b, berr) in zip(stmts, after, fresh):
+            if a != b:
+                la, lb = a.splitlines(), b.splitlines()
+                k = next((n for n, (x, y) in enumerate(zip(la + [None], lb + [None])) if x != y), 0)
+                ctx.violation('c17.numberify_after_reload',
+                              f'{st} (numberify, csv) after the ledger file was rewritten and reloaded: line {k} is {la[k] if k < len(la) else None!r}, '
+                              f'a fresh session on the same file prints {lb[k] if k < len(lb) else None!r}', dict(case, statement=st))
+                break
+        # the fresh session against the API: numberify_results on the result of a new connection, rendered by the csv renderer
+        import beanquery
+        from beanquery.numberify import numberify_results
+        from beanquery import query_render
+        entries, errors, options = loader.load_file(path)
+        conn = beanquery.connect('beancount:', entries=entries, errors=errors, options=options)
+        for st, (b, _) in zip(stmts, fresh):
+            curs = conn.execute(st)
+            desc, rows = numberify_results(curs.description, curs.fetchall(), options['dcontext'].build())
+            buf = io.StringIO()
+            query_render.render_csv(desc, rows, options['dcontext'], buf, expand=False, nullvalue='')
+            if buf.getvalue() != b:
+                ctx.violation('c17.shell_numberify_vs_api', f'{st}: the shell (numberify, csv) prints something else than numberify_results on the API result rendered as csv',
+                              dict(case, statement=st, shell=b[:400], api=buf.getvalue()[:400]))
+                break
+    finally:
+        os.unlink(path)
+
+
 def run(ctx):
     engine.bq()
     install_contract()
@@ -268,6 +362,8 @@ def run(ctx):
         run_case(ctx, n)
     for i in range(ctx.pick(2, 30)):
         ledger_route(ctx, i)
+    for i in range(ctx.pick(3, 40)):
+        shell_reload_route(ctx, i)
     ctx.count('obs.contract_evaluations', _evals[0])
 
 
@@ -281,7 +377,7 @@ def replay(ctx, case):
 def finalize(merged):
     c = merged['counters']
     reasons = []
-    for k in ('obs.tables', 'obs.amount_columns', 'obs.cells_checked', 'obs.null_amount_cells', 'obs.run_query_cases', 'obs.contract_evaluations'):
+    for k in ('obs.tables', 'obs.amount_columns', 'obs.cells_checked', 'obs.null_amount_cells', 'obs.run_query_cases', 'obs.contract_evaluations', 'obs.reload_sessions_output_changed'):
         if c.get(k, 0) == 0:
             reasons.append(f'{k} == 0')
     return reasons
